@@ -63,3 +63,9 @@ def _c08_expand_slice_subrange(case, clause):
         return False
     rb, re_, cb, ce = case["slice"]
     return not (rb == 0 and cb == 0 and re_ == len(case["s1"]) + 1 and ce == len(case["s2"]) + 1)
+
+
+@predicate("c19_reciprocal_quantile_a_not_reported")
+def _c19_recip(case, clause):
+    """distance_to_similarity(method='reciprocal', cover_quantile=...) derives `a` but reports only r."""
+    return clause.startswith("d2s[reciprocal,cq]") and clause.endswith("re-application-differs")
